@@ -373,6 +373,40 @@ def parseLine (ts : List Tok) : List Rat × List String :=
   (ts.filterMap (fun t => match t with | .num r => some r | .word _ => none),
    ts.filterMap (fun t => match t with | .word s => some s | .num _ => none))
 
+/-! ## lexical layer: which tokens are numbers -/
+
+/-- MODEL of the test in `Command._parse_line`: `str.isdigit(x[0]) or x[0] in '+-' or (x[0] == '.' and x[1:2].isdigit())` -/
+def cmdIsNum : List Char → Bool
+  | [] => false
+  | c :: t => c.isDigit || c == '+' || c == '-' || (c == '.' && (match t with | d :: _ => d.isDigit | [] => false))
+
+def dropDigits : List Char → List Char
+  | [] => []
+  | c :: t => if c.isDigit then dropDigits t else c :: t
+
+/-- optional exponent part: `[eE][+-]?digit+` -/
+def expOK : List Char → Bool
+  | [] => true
+  | c :: t => (c == 'e' || c == 'E') &&
+      (match t with
+       | [] => false
+       | s :: u => if s == '+' || s == '-' then (!u.isEmpty && (dropDigits u).isEmpty) else (dropDigits (s :: u)).isEmpty)
+
+/-- unsigned free-format number: `digit+ ('.' digit*)? exp?` or `'.' digit+ exp?` -/
+def unsignedOK : List Char → Bool
+  | [] => false
+  | c :: t =>
+    if c.isDigit then
+      (match dropDigits t with
+       | '.' :: r => expOK (dropDigits r)
+       | r => expOK r)
+    else c == '.' && (match t with | d :: r => d.isDigit && expOK (dropDigits r) | [] => false)
+
+/-- SPEC: a number as SHELXL's free-format input accepts it: optional sign, then `unsignedOK` -/
+def isFreeNumber : List Char → Bool
+  | [] => false
+  | c :: t => if c == '+' || c == '-' then unsignedOK t else unsignedOK (c :: t)
+
 /-! ## hand-written models of the classes that are not table shaped -/
 
 /-- `PART.__init__`: `n = int(p[0])` under try/except IndexError -> 0; `sof = float(p[1])` if present -/
